@@ -23,7 +23,21 @@ def lookup(prop, quick_b1="MC_Lookup_quick.cfg", thorough_b1="MC_Lookup_thorough
     }
 
 
+def scan():
+    return {
+        "trace_spec": "Trace_Scan.tla", "trace_cfg": "Trace_Scan.cfg", "consts": dict(REAL, LayerM="TRUE"),
+        "decides": ["C04"],
+        "assumptions": LOOKUP_ASSUME[:2] + ["every yielded slice is copied by the harness before the next call (the library reuses its buffer)",
+                                            "bounds: see coverage.rule and coverage.classes_reached"],
+        "quick": {"b1": [("MC_Scan.tla", "MC_Scan_quick.cfg")], "b1_workers": 4, "b1_timeout": 600, "chunks": 12,
+                  "tlc_timeout": 900, "maxpar": 12},
+        "thorough": {"b1": [("MC_Scan.tla", "MC_Scan_thorough.cfg")], "b1_workers": 6, "b1_timeout": 3000, "chunks": 32,
+                     "tlc_timeout": 3000, "maxpar": 10},
+    }
+
+
 CHECKS = {
+    "C04": scan(),
     "C01": lookup("C01"),
     "C02": lookup("C02"),
     "C03": lookup("C03"),
